@@ -23,7 +23,8 @@ the prefix-state oracle are applied to what they left behind.
 
 Signatures: C11:zero-length-file (F11: the file exists but has length 0 and the readers raise struct.error), C11:cut-unreadable,
 C11:collect-raises, C11:healthy-sample-missing, C11:reopen-raises, C11:reopen-not-a-prefix-state, C11:reopen-write-lost,
-C11:not-a-prefix-state, C11:unwritten-key, C11:unwritten-value.
+C11:not-a-prefix-state, C11:unwritten-key, C11:unwritten-value, C11:all-zero-file (the sized but still all-zero file must read as
+empty and reopen with used = 8), C11:writer-raises (a plain history raised while being recorded).
 """
 import builtins
 import hashlib
@@ -251,7 +252,8 @@ def observe_reopen(md, src, copy, init, fresh_key):
     try:
         d = md.MmapedDict(copy)
         r1 = base.read_with(d.read_all_values)
-        summ = 'ok:%s:%s:%d:%s' % (d._used, d._capacity, len(d._positions), r1)
+        pos = getattr(d, '_positions', None)     # private attributes: compared with the model when present, never required
+        summ = 'ok:%s:%s:%s:%s' % (getattr(d, '_used', '?'), getattr(d, '_capacity', '?'), '?' if pos is None else len(pos), r1)
         d.write_value(fresh_key, bf(FRESH_V), bf(FRESH_T))
         r2 = base.read_with(d.read_all_values)
         d.close()
@@ -266,6 +268,14 @@ def observe_reopen(md, src, copy, init, fresh_key):
                 d.close()
             except Exception:  # noqa
                 pass
+
+
+def same_summary(model, real):
+    """reopen summaries agree; a '?' (private attribute not present in this implementation) matches anything"""
+    if model == real:
+        return True
+    a, b = model.split(':', 4), real.split(':', 4)
+    return len(a) == 5 and len(b) == 5 and all(x == y or y == '?' for x, y in zip(a, b))
 
 
 def file_str(content):
@@ -536,7 +546,7 @@ def check_history(ctx, judge, md, scratch, init, ops, model_reply, label, only_c
         judge_reopen(judge, ref, head, case, reopen, completed, in_op, fresh)
         if kind == 'after-truncate-initial-all-zero':
             # pinned explicitly: an all-zero file of full size reads as empty and reopens with used = 8
-            if reader != '.' or collect != 'ok' or not reopen[0].startswith('ok:8:%d:0:' % len(content)):
+            if reader != '.' or collect != 'ok' or not same_summary('ok:8:%d:0:.' % len(content), reopen[0]):
                 judge.fail('C11:all-zero-file', head + 'all-zero file: reader %s, collect %s, reopen %s' % (reader, collect, reopen[0]), case)
         if mcuts is not None and k < len(mcuts):
             m = mcuts[k]
@@ -547,7 +557,7 @@ def check_history(ctx, judge, md, scratch, init, ops, model_reply, label, only_c
             for name, a, b in zip(('effect', 'file', 'file reader', 'reopen', 'classification'), m, mine):
                 if a == '!Timeout' or (name == 'classification' and m[2] == '!Timeout'):
                     ctx.count('cut-leaves-the-model')      # negative length field / header: not modelled
-                elif a != b:
+                elif a != b and not (name == 'reopen' and same_summary(a, b)):
                     ctx.diverge(head + '%s: model %s, implementation %s' % (name, short_triples(a, 200), short_triples(b, 200)), case)
     scratch.put(fname, None)
     return rec
